@@ -253,6 +253,9 @@ func (r *vsRun) genDef(name string, existing []string) string {
 // referencedInSubQuery reports whether some tag filters on the named tag (or on a tag whose definition leads
 // to it) from inside a sub-query.
 func (r *vsRun) referencedInSubQuery(name string) bool {
+	if r.e == nil {
+		return false // script generation without a running service (kill campaign): tag/d is never referenced there either
+	}
 	var defs map[string]string
 	_ = r.e.inLoop(func() {
 		defs = map[string]string{}
@@ -287,6 +290,9 @@ func (r *vsRun) referencedInSubQuery(name string) bool {
 
 // subQueryTag reports whether the definition of the tag, or of a tag it refers to, uses a sub-query.
 func (r *vsRun) subQueryTag(name string) bool {
+	if r.e == nil {
+		return name == "tag/d"
+	}
 	var defs map[string]string
 	_ = r.e.inLoop(func() {
 		defs = map[string]string{}
